@@ -53,6 +53,7 @@ MonInit ==
     ctx |-> "loop",        \* kind of the last callback / API object
     fatal |-> "",
     blocked |-> FALSE,     \* the loop thread sits in a wait that found nothing
+    wantMethod |-> "",     \* poll method the configuration (exclusion list) must select
     opaque |-> FALSE,      \* objects of other subsystems hold loop references
                            \* whose release is not observable here
     viols |-> {}, seen |-> {} ]
@@ -285,6 +286,9 @@ MonStep(m, e) ==
     [] e.e \in {"CbB", "WE", "Blk", "WR", "Clk", "MainB", "MainE"} ->
          IF e.t = 0 THEN LoopStep(m, e)
          ELSE IF e.e = "CbB" /\ e.k \in {"ev", "raw"} THEN CbStep(m, e) ELSE m
+    [] e.e = "Want" -> [m EXCEPT !.wantMethod = e.m]
+    [] e.e = "Init" -> (* C15: the method chosen honours the exclusion list *)
+         Chk(m, m.wantMethod # "", e.m = m.wantMethod, "C15:method-selection")
     [] e.e = "Qui" -> Quiesce(m)
     [] e.e = "Flt" ->
          (* a failed (interrupted, unsupported) wait call is still "the kernel
